@@ -29,7 +29,7 @@ def cases(ctx):
     rng = ctx.rng_global('mask')
     i = 0
     chars = [chr(c) for c in range(0x20, 0x7f)] + [chr(c) for c in rng.sample(range(0xa1, 0x100), 12)]
-    reps = 1 if ctx.tier == 'quick' else 6
+    reps = 1 if ctx.tier == 'quick' else 40
     for rep in range(reps):
         for n in range(10, 41):
             for kind in ('digits', 'arbitrary'):
@@ -50,7 +50,7 @@ def cases(ctx):
     # the statement says "a field configured for PAN masking": fixed-width text elements wide enough for a card number too
     var_text += [b for b in gen.data_bits(base) if base[str(b)]['field_type'] == 'FIXED' and base[str(b)]['field_length'] >= 12
                  and not base[str(b)].get('field_processor') and gen.is_text(base[str(b)])]
-    per = 6 if ctx.tier == 'quick' else 60
+    per = 6 if ctx.tier == 'quick' else 600
     for b in var_text:
         for proc in ('PAN', 'PAN-PREFIX'):
             for enc in ('latin_1', 'cp500'):
@@ -65,7 +65,7 @@ def cases(ctx):
     # generated configurations that carry the processors themselves
     rng = ctx.rng('gencfg')
     n = 0
-    for j in range((400 if ctx.tier == 'quick' else 8000) // ctx.nshards + 1):
+    for j in range((400 if ctx.tier == 'quick' else 80000) // ctx.nshards + 1):
         cid = ['gen', ctx.seed * 131 + rng.randint(0, 400)]
         cfg = msgwork.cfg_of(cid)
         pans = [int(b) for b, c in cfg.items() if c.get('field_processor') in ('PAN', 'PAN-PREFIX')]
